@@ -30,6 +30,8 @@ FLAVORS = {
     "own": (["-O1", "-g", "-fno-omit-frame-pointer", "-fsanitize=address,undefined", "-fsanitize-coverage=trace-pc-guard,trace-loads,trace-stores"],
             ["-O1", "-g", "-fno-omit-frame-pointer", "-fsanitize=address", "-DSIM_SANITIZE", "-DSIM_OWNERSHIP"],
             ["-fsanitize=address,undefined"]),
+    # reach measurement only (tools/coverage.sh): source coverage of libhtp under the checks' own workloads
+    "cov": (["-O0", "-g", "-fprofile-instr-generate", "-fcoverage-mapping", "-fsanitize-coverage=trace-pc-guard"], ["-O1", "-g"], ["-fprofile-instr-generate"]),
 }
 
 
